@@ -482,6 +482,12 @@ func cmdCheck(args []string) int {
 			}
 			continue
 		}
+		if o.Kind == "cover" && strings.HasPrefix(o.Name, "cover:deadpath(") {
+			if o.Status == "unsat" {
+				fmt.Printf("DEADPATH property=%s function=%s %s: infeasible under the loop invariants (its obligations hold vacuously)\n", *prop, o.Function, o.Name)
+			}
+			continue
+		}
 		if o.Kind == "cover" {
 			covers++
 			// a cover must be satisfiable (or at least not refuted)
